@@ -99,7 +99,13 @@ def textify(v):
 
 # --------------------------------------------------------------------------- server
 class Server:
-    def __init__(self, garden, scratch_dir, delays=None, life_s=120, mem_gb=3):
+    def __init__(self, garden, scratch_dir, delays=None, life_s=120, mem_gb=8):
+        # The server starts ~7 threads per connection and glibc reserves a 64 MB malloc arena of
+        # *address space* per thread (RSS stays < 100 MB): 10 two-session connections need 4.6 GB
+        # of virtual memory.  Under a 3 GB RLIMIT_AS thread creation fails with EAGAIN and the
+        # server's `expect("Could not spawn …")` aborts it, which looked like lost `done`s.  So:
+        # MALLOC_ARENA_MAX=2 (allocator tuning only) and an 8 GB address-space cap; the scripts are
+        # all generated here and bounded, nothing in them allocates without bound.
         self.garden = garden
         self.dir = scratch_dir
         self.delays = dict(delays or {})
@@ -116,6 +122,7 @@ class Server:
         env = dict(os.environ)
         env["GARDEN_LOG"] = "info"
         env["NO_COLOR"] = "1"
+        env["MALLOC_ARENA_MAX"] = "2"
         env.pop("GARDEN_VERIF_DELAY", None)
         if self.delays:
             env["GARDEN_VERIF_DELAY"] = ",".join("%s:%d" % kv for kv in sorted(self.delays.items()))
@@ -138,7 +145,7 @@ class Server:
                 line = re.sub(r"\x1b\[[0-9;]*m", "", raw.decode("utf-8", "replace"))
                 self.stderr_tail.append(line.rstrip())
                 del self.stderr_tail[:-50]
-                if re.search(r"thread '[^']*' panicked at ", line) or (
+                if re.search(r"thread '[^']*'(?: \(\d+\))? panicked at ", line) or (
                         self.panic_lines and self.panic_lines[-1].startswith("thread '") and not line.startswith("thread '")
                         and len(self.panic_lines) % 2 == 1):
                     self.panic_lines.append(line.rstrip()[:400])
@@ -181,6 +188,13 @@ class Server:
                 return rc not in (0, 124, 137)
         return False
 
+    def resource_failure(self):
+        """The server died of the harness's own resource limits (thread spawn / allocation failure),
+        which says nothing about the property."""
+        txt = " ".join(self.panic_lines + self.stderr_tail[-10:])
+        return bool(re.search(r"Could not spawn|Resource temporarily unavailable|memory allocation of \d+ bytes failed|"
+                              r"Cannot allocate memory", txt))
+
     def stop(self):
         if self.p is not None:
             try:
@@ -208,7 +222,16 @@ class Server:
 # --------------------------------------------------------------------------- client
 class Client:
     def __init__(self, port, connect_timeout=5):
-        self.sock = socket.create_connection(("127.0.0.1", port), timeout=connect_timeout)
+        last = None
+        for attempt in range(4):
+            try:
+                self.sock = socket.create_connection(("127.0.0.1", port), timeout=connect_timeout * (attempt + 1))
+                break
+            except OSError as e:       # loaded machine: the accept loop polls every 100 ms
+                last = e
+                time.sleep(0.5 * (attempt + 1))
+        else:
+            raise last
         self.sock.settimeout(None)
         self.sock.setsockopt(socket.IPPROTO_TCP, socket.TCP_NODELAY, 1)
         self.cv = threading.Condition()
@@ -247,7 +270,10 @@ class Client:
         with self.cv:
             seen = len(self.received)
             self.sent.append((msg, seen))
-        self.sock.sendall(bencode(msg))
+        try:
+            self.sock.sendall(bencode(msg))
+        except OSError as e:      # server gone: recorded, judged by the caller
+            self.error = self.error or ("send failed: %r" % (e,))
 
     def wait(self, pred, timeout):
         """Wait until some received message satisfies pred; returns it or None on timeout."""
@@ -278,12 +304,15 @@ class Client:
         self.sock.close()
 
 
-def run_script(port, steps):
+def run_script(port, steps, tfactor=1.0):
     """steps: list of
          ("send", msgdict) | ("wait_done", id, timeout_s) | ("wait_key", id, key, timeout_s)
          | ("sleep", seconds)
     Returns dict(sent=[(msg, seen)], received=[msg], timeouts=[step...], t=[recv times], error)."""
-    c = Client(port)
+    try:
+        c = Client(port)
+    except OSError as e:
+        return dict(sent=[], received=[], t=[], timeouts=[], error="connect failed: %r" % (e,))
     timeouts = []
     t0 = time.time()
     try:
@@ -291,11 +320,11 @@ def run_script(port, steps):
             if st[0] == "send":
                 c.send(st[1])
             elif st[0] == "wait_done":
-                if c.wait_done(st[1], st[2]) is None:
-                    timeouts.append(list(st))
+                if c.wait_done(st[1], st[2] * tfactor) is None:
+                    timeouts.append(list(st[:2]) + [st[2] * tfactor])
             elif st[0] == "wait_key":
-                if c.wait_key(st[1], st[2], st[3]) is None:
-                    timeouts.append(list(st))
+                if c.wait_key(st[1], st[2], st[3] * tfactor) is None:
+                    timeouts.append(list(st[:3]) + [st[3] * tfactor])
             elif st[0] == "sleep":
                 time.sleep(st[1])
         # grace period: a message after the last awaited `done` would be a violation
@@ -627,21 +656,24 @@ def calibrate(garden, scratch):
     return max(2000, min(400000, int(20000 * 100 / msec)))
 
 
-def run_schedule(garden, scratch, kind, delays, n, seed, k100, life_s=150):
+def run_schedule(garden, scratch, kind, delays, n, seed, k100, life_s=150, par=8, tfactor=1.0, scenarios=None):
     """n scripted clients of one schedule against one server (parallel connections).
     Returns list of (scenario, result)."""
     import random
     from concurrent.futures import ThreadPoolExecutor
     rng = random.Random(seed)
-    scs = [make_scenario(kind, random.Random(rng.getrandbits(32)), k100) for _ in range(n)]
+    scs = scenarios if scenarios is not None else [
+        make_scenario(kind, random.Random(rng.getrandbits(32)), k100) for _ in range(n)]
     out = []
-    with Server(garden, scratch, delays, life_s=life_s) as s:
-        with ThreadPoolExecutor(max_workers=min(n, 8)) as ex:
-            ress = list(ex.map(lambda sc: run_script(s.port, sc.steps), scs))
+    with Server(garden, scratch, delays, life_s=int(life_s * max(1.0, tfactor))) as s:
+        with ThreadPoolExecutor(max_workers=max(1, min(len(scs), par))) as ex:
+            ress = list(ex.map(lambda sc: run_script(s.port, sc.steps, tfactor), scs))
         panicked = s.panicked()
+        resource = panicked and s.resource_failure()
         tail = list(s.panic_lines) or (["exit status %r" % s.exit_status] + list(s.stderr_tail[-3:]))
     for sc, r in zip(scs, ress):
         r["server_panicked"] = panicked
+        r["resource_failure"] = resource
         r["stderr_tail"] = tail
         out.append((sc, r))
     return out
@@ -654,16 +686,56 @@ def run_configs(ctx, prop, configs, n, extra_oracle=None):
     from . import common
     garden = common.GARDEN
     base = ctx.scratch("nrepl")
-    k100 = calibrate(garden, os.path.join(base, "cal"))
+    try:
+        k100 = calibrate(garden, os.path.join(base, "cal"))
+    except Exception as e:     # calibration only shapes the scripts; never a verdict
+        ctx.notes.append("busy-loop calibration failed (%r); using the default" % (e,))
+        k100 = 20000
     ctx.cov["busy_iterations_per_100ms"] = k100
     seeds = [ctx.rng.getrandbits(32) for _ in configs]
 
-    def one(ix):
+    retried = dict(schedules_resource=0, scripts_timeout=0, scripts_still_failing=0)
+
+    def attempt(ix, tag, **kw):
         kind, delays = configs[ix]
-        try:
-            return run_schedule(garden, os.path.join(base, "srv%d" % ix), kind, delays, n, seeds[ix], k100)
-        except Exception as e:       # server did not start etc.
-            return e
+        last = None
+        for a in range(2):           # a server that does not come up on a loaded machine: once more
+            try:
+                return run_schedule(garden, os.path.join(base, "srv%d%s%d" % (ix, tag, a)), kind, delays, n,
+                                    seeds[ix], k100, **kw)
+            except Exception as e:
+                last = e
+                time.sleep(1.0)
+        return last
+
+    def one(ix):
+        rs = attempt(ix, "a")
+        if isinstance(rs, Exception):
+            return rs
+        if any(r.get("resource_failure") for _, r in rs):
+            # the server hit the harness's own resource limits: not evidence about the property
+            retried["schedules_resource"] += 1
+            rs = attempt(ix, "b", par=3)
+            if isinstance(rs, Exception):
+                return rs
+            if any(r.get("resource_failure") for _, r in rs):
+                return RuntimeError("server keeps dying of resource limits: %s" % rs[0][1]["stderr_tail"][:3])
+        # a script that missed a time bound is run again alone, on a fresh server with the same
+        # delays and 4x the bounds, before anything is reported (loaded machines)
+        out = []
+        for j, (sc, r) in enumerate(rs):
+            if (r["timeouts"] or r["error"]) and not (r.get("server_panicked") and not r.get("resource_failure")):
+                retried["scripts_timeout"] += 1
+                r2 = attempt(ix, "r%d" % j, par=1, tfactor=4.0, scenarios=[sc])
+                if not isinstance(r2, Exception):
+                    r2[0][1]["first_attempt"] = dict(timeouts=r["timeouts"], error=r["error"],
+                                                     received=r["received"][-6:])
+                    if r2[0][1]["timeouts"] or r2[0][1]["error"]:
+                        retried["scripts_still_failing"] += 1
+                    out.append(r2[0])
+                    continue
+            out.append((sc, r))
+        return out
 
     results = common.pmap(one, list(range(len(configs))), workers=4)
     lines, owners = [], []
@@ -685,8 +757,10 @@ def run_configs(ctx, prop, configs, n, extra_oracle=None):
             stats["multi_chunk"] += multi
             stats["interrupted"] += intr
             replay = dict(schedule=kind, delays=dl, steps=sc.steps, received=res["received"],
-                          sent_seen=[s for _, s in res["sent"]])
-            if res.get("server_panicked"):
+                          recv_times=[round(x, 3) for x in res.get("t", [])],
+                          sent_seen=[s for _, s in res["sent"]], timeouts=res["timeouts"], io_error=res["error"],
+                          first_attempt=res.get("first_attempt"), server_stderr=res.get("stderr_tail"))
+            if res.get("server_panicked") and not res.get("resource_failure"):
                 ctx.fail("%s/%s/server-panic" % (prop, kind), "the nREPL server panicked: %s" % res["stderr_tail"], **replay)
             bad = oracle(sc, res)
             if extra_oracle:
@@ -702,14 +776,27 @@ def run_configs(ctx, prop, configs, n, extra_oracle=None):
                 continue
             lines.append("nrepl_accept " + sx)
             owners.append((kind, dl, replay, bool(bad)))
-    answers = ctx.model_batch(lines, shards=4, timeout=300) if lines else []
+    answers = ctx.model_batch(lines, shards=4, timeout=600) if lines else []
+    # a driver process that died or timed out (loaded machine) is not a verdict: ask again, alone
+    for i, ans in enumerate(answers):
+        if ans is None or not ans.startswith("OK"):
+            again = ctx.model_batch([lines[i]], shards=1, timeout=600)
+            answers[i] = again[0] if again else None
+    stats["model_no_answer"] = 0
     for line, ans, (kind, dl, replay, had_bad) in zip(lines, answers, owners):
         if ans is not None and ans.startswith("OK accept"):
             stats["accept"] += 1
         elif ans == "OK budget":
             stats["budget"] += 1
-        else:
+        elif ans is not None and ans.startswith("OK reject"):
             ctx.disagree("nrepl_accept [%s, delays %s]" % (kind, dl), line[:3000], "no model run produces this trace: %s" % ans,
                          replay["received"], oracle_also_failed=had_bad)
+        else:
+            stats["model_no_answer"] += 1
+    stats["retried"] = retried
+    inconclusive = stats["budget"] + stats["model_no_answer"] + stats["inexpressible"]
+    if lines and inconclusive * 10 > len(lines):
+        ctx.broken.append(dict(kind="harness", what="model replay inconclusive for %d of %d traces (budget %d, no answer %d)" % (
+            inconclusive, len(lines), stats["budget"], stats["model_no_answer"])))
     ctx.cov["nrepl"] = stats
     return stats
